@@ -167,6 +167,17 @@ impl Node {
         self.chain().blocking_process_block(Arc::new(block.clone()))
     }
 
+    /// like `process`, but gives up after 40 s (a service thread that panicked never answers)
+    pub fn process_timed(&self, block: &BlockView) -> Option<VerifyResult> {
+        let rx = self.deliver(block);
+        rx.recv_timeout(std::time::Duration::from_secs(40)).ok()
+    }
+
+    /// leaves the node's threads alone (used after a service thread stopped answering)
+    pub fn abandon(self) {
+        std::mem::forget(self);
+    }
+
     pub fn process_with_switch(&self, block: &BlockView, switch: ckb_verification_traits::Switch) -> VerifyResult {
         self.chain().blocking_process_block_with_switch(Arc::new(block.clone()), switch)
     }
